@@ -50,7 +50,7 @@ Out ==
     [] What = "c10" -> ToJson([cases |-> C10Cases])
     [] What = "c13" -> ToJson([cases |-> C13Cases])
     [] What = "c08" -> ToJson([cases |-> C08Cases])
-    [] What = "c09" -> ToJson([contents |-> C09Contents])
+    [] What = "c09" -> ToJson([contents |-> C09Contents, incomplete |-> IncompleteContents])
     [] What = "c12" -> ToJson([cases |-> C12Cases])
 ASSUME PrintT(<<"GEN", Out>>)
 VARIABLE dummy
